@@ -217,13 +217,16 @@ func diag(r *ev.Run, env *rt.Env, p progen.Program, c *counters) {
 		r.Eval(1)
 		checkDiagnostics(r, env, kind, variant, c)
 	}
+	crlf := func(s string) string { return strings.ReplaceAll(s, "\n", "\r\n") }
 	for i := range toks {
 		// deletion
 		cp := append(append([]lang.Tok{}, toks[:i]...), toks[i+1:]...)
 		check("delete", lang.Source(cp))
+		check("delete+crlf", crlf(lang.Source(cp))) // the same edit in a file with CRLF line ends
 		// duplication
 		cp = append(append(append([]lang.Tok{}, toks[:i+1]...), toks[i]), toks[i+1:]...)
 		check("duplicate", lang.Source(cp))
+		check("duplicate+crlf", crlf(lang.Source(cp)))
 		// substitution
 		for _, s := range subst {
 			cp = append([]lang.Tok{}, toks...)
@@ -272,11 +275,11 @@ func checkDiagnostics(r *ev.Run, env *rt.Env, kind, src string, c *counters) {
 			r.Report("diagnostic-line-outside-source"+where, fmt.Sprintf("%q\n  %s: reported line %d, the source has %d", src, firstLine(msg), ln, len(lines)), replayIn{"D", "", src, kind}, strconv.Itoa(ln), "1.."+strconv.Itoa(len(lines)))
 			return
 		}
-		line := lines[ln-1]
-		if col < 1 || col > utf8.RuneCountInString(line)+1 {
+		line := strings.TrimSuffix(lines[ln-1], "\r")
+		if col < 1 || col > utf8.RuneCountInString(lines[ln-1])+1 {
 			r.Report("diagnostic-column-outside-line"+where, fmt.Sprintf("%q\n  %s: reported line %d column %d, that line is %q", src, firstLine(msg), ln, col, line), replayIn{"D", "", src, kind}, strconv.Itoa(col), "1.."+strconv.Itoa(utf8.RuneCountInString(line)+1))
 		}
-		if sc := pe.SourceCode(); sc != line {
+		if sc := strings.TrimSuffix(pe.SourceCode(), "\r"); sc != line {
 			r.Report("diagnostic-quotes-wrong-line"+where, fmt.Sprintf("%q\n  %s: quotes %q but line %d is %q", src, firstLine(msg), sc, ln, line), replayIn{"D", "", src, kind}, sc, line)
 		}
 		_ = ep
@@ -391,5 +394,5 @@ func Check(r *ev.Run, replay string) {
 	r.Set("layout_variants_parsed", int(c.variants))
 	r.Set("single_token_edits", int(c.edits))
 	r.Set("diagnostics_checked", int(c.errorsSeen))
-	r.Set("rule", "L: every corpus program x every token gap x 7 insertions, line break after every comma/operator/pipe (one at a time and all at once), line/block comments at every line end, blank/comment lines between statements, CRLF; oracle: position-free reflection dump of the real AST equals the original's. D: every single-token deletion, duplication, substitution (23 replacement tokens) and every prefix of every corpus program (every 16th program in quick, 9 replacement tokens; quick also thins the 3-node control skeletons and the scoping family to every 16th program); oracle: error position inside the source, quoted line verbatim, message rendering does not fail. distinct = distinct diagnostic message heads")
+	r.Set("rule", "L: every corpus program x every token gap x 7 insertions, line break after every comma/operator/pipe (one at a time and all at once), line/block comments at every line end, blank/comment lines between statements, CRLF; oracle: position-free reflection dump of the real AST equals the original's. D: every single-token deletion and duplication (each also with CRLF line ends), substitution (23 replacement tokens) and every prefix of every corpus program (every 16th program in quick, 9 replacement tokens; quick also thins the 3-node control skeletons and the scoping family to every 16th program); oracle: error position inside the source, quoted line verbatim, message rendering does not fail. distinct = distinct diagnostic message heads")
 }
